@@ -39,7 +39,24 @@ def run(prog, chk):
             return named[name]
         raise AnalysisBroken('analyser site %s not found' % name)
 
-    def has_cell(f, pred, depth=2, seen=None):
+    def dedicated(t, family, depth=2):
+        """t is a helper that exists for the sites of this rule only: every caller is one of those sites or such a helper
+        (e.g. the shared body of the two assignment visitors) — unlike a general-purpose function that many visitors use"""
+        cs = [gfn for gfn, call in prog.callers(t)]
+        if not cs:
+            return False
+        for gfn in cs:
+            top = gfn
+            while top.kind == 'lambda' and getattr(top, 'parent', None) is not None:
+                top = top.parent
+            if any(top is x for x in family):
+                continue
+            if depth > 0 and top.short != 'visit' and top is not t and dedicated(top, family, depth - 1):
+                continue
+            return False
+        return True
+
+    def has_cell(f, pred, depth=2, seen=None, family=()):
         """A Semantic throw in f is controlled by a test involving the rule's predicate: some branch condition that mentions the
         predicate (directly, or through a local whose initialiser mentions it) can reach the throw; or f calls an analyser function
         (depth-bounded) for which that holds; or f calls a predicate function that itself throws."""
@@ -68,7 +85,7 @@ def run(prog, chk):
                     if tids & g.reachable([c]):
                         return True
         for lf in f.lambdas:
-            if has_cell(lf, pred, depth, seen):
+            if has_cell(lf, pred, depth, seen, family):
                 return True
         if depth > 0:
             for call, fs in prog.callees(f):
@@ -78,7 +95,7 @@ def run(prog, chk):
                             return True
                         # only the rule's own resolver/validator helpers may discharge a cell on behalf of a visitor; an unrelated
                         # callee that happens to enforce the rule for its own purposes (e.g. type inference) does not
-                        if t.short in HELPERS and has_cell(t, pred, depth - 1, seen):
+                        if (t.short in HELPERS or dedicated(t, family)) and has_cell(t, pred, depth - 1, seen, family):
                             return True
         return False
 
@@ -128,7 +145,7 @@ def run(prog, chk):
         for s in sites:
             f = site(s)
             ncell += 1
-            ok = has_cell(f, P[pred])
+            ok = has_cell(f, P[pred], 3, None, [site(x) for x in sites])
             chk.ob('R16.A', f, f.ln, ok, 'rule "%s" must be enforced in %s (a Semantic throw guarded by the %s test, here or in a callee)' % (text, s, pred), key='%s@%s' % (pred, s))
     chk.count('obligation matrix cells', ncell, 45)
     # parameters of functions, methods and constructors all go through visit(Parameter)
